@@ -81,6 +81,8 @@ def tasks(tier, seed):
     base_ = dict(dt=0.25, prob='dahlquist', n=1, qd='LU', sweeper='generic_implicit', maxiter=2, restol=-1.0, blocks=2)
     for c in (dict(base_, M=[3, 2], NP=1), dict(base_, M=[3, 2, 2], NP=2, predict='fine_only'), dict(base_, M=[3], NP=2, jac=False), dict(base_, sweeper='imex_1st_order', M=[3, 2], NP=1)):
         T.append(('isolation', json.dumps(c, sort_keys=True)))
+    T.append(('lengths', json.dumps(dict(dt=0.25, prob='dahlquist', n=1, qd='LU', sweeper='generic_implicit', M=[2], NP=4, maxiter=1, restol=-1.0, blocks=1, jac=False, postrun=True), sort_keys=True)))
+    T.append(('lengths', json.dumps(dict(dt=0.25, prob='dahlquist', n=1, qd='LU', sweeper='generic_implicit', M=[2, 1], NP=3, maxiter=1, restol=-1.0, blocks=1, postrun=True), sort_keys=True)))
     T.append(('float', json.dumps(cfgs(tier)[1], sort_keys=True)))
     T.append(('float', json.dumps(cfgs(tier)[5], sort_keys=True)))
     return T
@@ -216,6 +218,16 @@ def scenario_case(rep, scenario, cfg):
             after = {k: v for k, v in shared['cp'].items() if k != 'hook_class'}
             out['params_unchanged'] = (before == after, before, after)
             return [((u1, s1), (u2, s2))]
+        if scenario == 'lengths':
+            # runs of different lengths on one controller (blocks shorter than the number of processes leave steps outside the block): a run repeated
+            # after them gives what it gives on a fresh controller, statistics of hooks keyed on the last step included
+            _, u1, s1, _ = run_once(c, cfg, xs=xs, nsteps=2)
+            ctl, _u, _s, _ = run_once(c, cfg, xs=xs, nsteps=2)
+            run_once(c, cfg, ctl=ctl, xs=xs, nsteps=3)
+            _, u3, s3, _ = run_once(c, cfg, ctl=ctl, xs=xs, nsteps=2)
+            run_once(c, cfg, ctl=ctl, xs=xs, nsteps=1)
+            _, u4, s4, _ = run_once(c, cfg, ctl=ctl, xs=xs, nsteps=2)
+            return [((u1, s1), (u3, s3)), ((u1, s1), (u4, s4))]
         if scenario == 'reuse':
             # a controller that has already done a DIFFERENT run (other initial value, other start time) must behave like a fresh one
             ys = [z3.Real(f'y{i}') for i in range(n)]
@@ -315,6 +327,16 @@ def float_runs(scenario, cfg, x=0.7321):
         c2, _ = wr.build(cS, float_mode=True)
         _, b, _ = go(c2)
         return [(a, b)]
+    if scenario == 'lengths':
+        # (end value followed by the number of non-timing statistics entries, so that surplus records show up in the comparison)
+        cnt = lambda st: float(sum(1 for k in st if not str(k.type).startswith('timing')))
+        _, a, sa = go(nsteps=2)
+        ctl, _a, _ = go(nsteps=2)
+        go(ctl, nsteps=3)
+        _, b, sb = go(ctl, nsteps=2)
+        go(ctl, nsteps=1)
+        _, c_, sc_ = go(ctl, nsteps=2)
+        return [(np.append(a, cnt(sa)), np.append(b, cnt(sb))), (np.append(a, cnt(sa)), np.append(c_, cnt(sc_)))]
     if scenario == 'reuse':
         ctl, _a, _ = go()
         _, b, _ = go(ctl, x0=0.3 * x, t0=3 * cfg['dt'])
